@@ -25,7 +25,7 @@ func (f *g2lFn) params() []nameType {
 				out = append(out, nameType{"_", f.leanType(t, fld)})
 			}
 			for _, n := range fld.Names {
-				out = append(out, nameType{leanIdent(n.Name), f.leanType(t, fld)})
+				out = append(out, nameType{f.name(n), f.leanType(t, fld)})
 			}
 		}
 	}
@@ -41,6 +41,7 @@ func (f *g2lFn) params() []nameType {
 
 func (f *g2lFn) compileBody(monad string) (lines []string) {
 	f.tmp, f.nloop, f.loops = 0, 0, nil
+	f.objNames, f.usedName = map[types.Object]string{}, map[string]bool{}
 	f.monad = monad
 	sig := f.p.info.Defs[f.fd.Name].Type().(*types.Signature)
 	f.results = nil
@@ -67,7 +68,7 @@ func (f *g2lFn) compileBody(monad string) (lines []string) {
 			if r.Name() == "" || r.Name() == "_" {
 				f.bad(f.fd, "mixed named and blank results")
 			}
-			lines = append(lines, fmt.Sprintf("let %s := %s", leanIdent(r.Name()), f.zero(r.Type(), f.fd)))
+			lines = append(lines, fmt.Sprintf("let %s := %s", f.varName(r), f.zero(r.Type(), f.fd)))
 		}
 	}
 	end := func() []string {
